@@ -45,6 +45,12 @@ theorem recfg_applyRequest (t : Transition) (i : Nat) :
   cases t.kind <;> simp only [] <;> (repeat' split) <;>
     simp only [Node.request_recfg, Node.fwdActive_recfg, recfg_fail', *]
 
+theorem recfg_applyRequestNoPin (t : Transition) :
+    (m.recfg r).applyRequestNoPin t = (m.applyRequestNoPin t).recfg r := by
+  simp only [Mach.applyRequestNoPin, recfg_snapshot]
+  cases t.kind <;> simp only [] <;> (repeat' split) <;>
+    simp only [Node.request_recfg, Node.fwdActive_recfg, recfg_fail', *]
+
 theorem recfg_applyAll : (ts : List Transition) → (m : Mach U) → (i : Nat) →
     (m.recfg r).applyAll ts i = (m.applyAll ts i).recfg r
   | [], m, i => rfl
@@ -427,23 +433,33 @@ theorem recfg_planClear (rid : Nat) : (m.recfg r).planClear rid = (m.planClear r
   · show ({ m with w := (m.w.recfg r).fail' _ } : Mach U) = _
     rw [recfg_fail']
 
-theorem recfg_foldl_apply : (l : List (Transition × Nat)) → (m : Mach U) →
-    l.foldl (fun (m : Mach U) (x : Transition × Nat) => m.applyRequest x.1 x.2) (m.recfg r) =
-      (l.foldl (fun (m : Mach U) (x : Transition × Nat) => m.applyRequest x.1 x.2) m).recfg r
+/-- with the substitution limit kept, the capacity of the transition history is the same on both sides -/
+theorem recfg_historyCap (hl : r.limit = none) : (m.recfg r).w.cfg.historyCap = m.w.cfg.historyCap := by
+  show (m.w.cfg.recfg r).historyCap = _
+  unfold Config.historyCap
+  simp only [hl, Option.getD_none]
+
+theorem recfg_applyStep (hl : r.limit = none) (x : Transition × Nat) :
+    Mach.applyStep (m.recfg r) x = (Mach.applyStep m x).recfg r := by
+  unfold Mach.applyStep
+  rw [recfg_historyCap r m hl]
+  split
+  · exact recfg_applyRequest r m x.1 x.2
+  · exact recfg_applyRequestNoPin r m x.1
+
+theorem recfg_foldl_apply (hl : r.limit = none) : (l : List (Transition × Nat)) → (m : Mach U) →
+    l.foldl Mach.applyStep (m.recfg r) = (l.foldl Mach.applyStep m).recfg r
   | [], m => rfl
   | x :: rest, m => by
-      simp only [List.foldl_cons, recfg_applyRequest]
-      exact recfg_foldl_apply rest _
+      simp only [List.foldl_cons, recfg_applyStep r m hl]
+      exact recfg_foldl_apply hl rest _
 
-theorem applyRequests_staged (ts : List Transition) : m.applyRequests ts =
-    ((ts.zipIdx.foldl (fun (m : Mach U) (x : Transition × Nat) => m.applyRequest x.1 x.2) { m with w := m.w.freshControl }),
-     (ts.zipIdx.foldl (fun (m : Mach U) (x : Transition × Nat) => m.applyRequest x.1 x.2) { m with w := m.w.freshControl }).root.marksDiffer m.root) := rfl
-
-theorem recfg_applyRequests (ts : List Transition) :
+/-- (the replay pins the first `historyCap` entries only: the capacity must be the same on both sides) -/
+theorem recfg_applyRequests (hl : r.limit = none) (ts : List Transition) :
     (m.recfg r).applyRequests ts = ((m.applyRequests ts).1.recfg r, (m.applyRequests ts).2) := by
-  rw [applyRequests_staged, applyRequests_staged]
+  rw [Mach.applyRequests_eq, Mach.applyRequests_eq]
   rw [show ({ m.recfg r with w := (m.recfg r).w.freshControl } : Mach U) =
-      Mach.recfg r { m with w := m.w.freshControl } from rfl, recfg_foldl_apply]
+      Mach.recfg r { m with w := m.w.freshControl } from rfl, recfg_foldl_apply r hl]
 
 /-- the part of `replayTransitions` / `replayEnter` after the requests were applied -/
 def replayCommitRc (m : Mach U) (ts : List Transition) : Mach U :=
@@ -453,7 +469,8 @@ def replayCommitRc (m : Mach U) (ts : List Transition) : Mach U :=
 theorem replayTransitions_staged (ts : List Transition) : m.replayTransitions ts =
     (if ts.isEmpty then (({ m with w := m.w.noHistoryRc } : Mach U), false) else
      if (({ m with w := m.w.noHistoryRc } : Mach U).applyRequests ts).2 then
-       (replayCommitRc (({ m with w := m.w.noHistoryRc } : Mach U).applyRequests ts).1 ts, true)
+       (replayCommitRc (({ m with w := m.w.noHistoryRc } : Mach U).applyRequests ts).1
+          (ts.take (({ m with w := m.w.noHistoryRc } : Mach U).applyRequests ts).1.w.cfg.historyCap), true)
      else ((({ m with w := m.w.noHistoryRc } : Mach U).applyRequests ts).1, false)) := by
   unfold Mach.replayTransitions
   split
@@ -469,17 +486,17 @@ theorem recfg_replayCommit (hh : r.noHist = false) (ts : List Transition) :
   simp only [h0, show (m.recfg r).root = m.root from rfl, Node.commit_recfg]
   rfl
 
-theorem recfg_replayTransitions (hh : r.noHist = false) (ts : List Transition) :
+theorem recfg_replayTransitions (hh : r.noHist = false) (hl : r.limit = none) (ts : List Transition) :
     (m.recfg r).replayTransitions ts = ((m.replayTransitions ts).1.recfg r, (m.replayTransitions ts).2) := by
   rw [replayTransitions_staged, replayTransitions_staged]
   have h1 : ({ m.recfg r with w := (m.recfg r).w.noHistoryRc } : Mach U) = Mach.recfg r { m with w := m.w.noHistoryRc } := by
     show ({ m with w := (m.w.recfg r).noHistoryRc } : Mach U) = _
     rw [recfg_noHistory]
-  rw [h1, recfg_applyRequests]
+  rw [h1, recfg_applyRequests r _ hl]
   split
   · rfl
   · split
-    · simp only [recfg_replayCommit r _ hh]
+    · simp only [recfg_replayCommit r _ hh, recfg_historyCap r _ hl]
     · rfl
 
 def replayEnterCommitRc (m : Mach U) (ts : List Transition) : Mach U :=
@@ -494,7 +511,8 @@ def replayEnterHeadRc (m : Mach U) : Mach U :=
 theorem replayEnter_staged (ts : List Transition) : m.replayEnter ts =
     (if ts.isEmpty then (({ m with w := m.w.clearTargets } : Mach U), false) else
      if ((replayEnterHeadRc m).applyRequests ts).2 then
-       (replayEnterCommitRc ((replayEnterHeadRc m).applyRequests ts).1 ts, true)
+       (replayEnterCommitRc ((replayEnterHeadRc m).applyRequests ts).1
+          (ts.take ((replayEnterHeadRc m).applyRequests ts).1.w.cfg.historyCap), true)
      else (((replayEnterHeadRc m).applyRequests ts).1, false)) := by
   unfold Mach.replayEnter
   split
@@ -518,14 +536,14 @@ theorem recfg_replayEnterHead : replayEnterHeadRc (m.recfg r) = (replayEnterHead
     rw [recfg_clearTargets]; rfl
   simp only [h0, show (m.recfg r).root = m.root from rfl, Node.request_recfg]
 
-theorem recfg_replayEnter (hh : r.noHist = false) (ts : List Transition) :
+theorem recfg_replayEnter (hh : r.noHist = false) (hl : r.limit = none) (ts : List Transition) :
     (m.recfg r).replayEnter ts = ((m.replayEnter ts).1.recfg r, (m.replayEnter ts).2) := by
-  rw [replayEnter_staged, replayEnter_staged, recfg_replayEnterHead, recfg_applyRequests]
+  rw [replayEnter_staged, replayEnter_staged, recfg_replayEnterHead, recfg_applyRequests r _ hl]
   split
   · show (({ m with w := (m.w.recfg r).clearTargets } : Mach U), false) = _
     rw [recfg_clearTargets]
   · split
-    · simp only [recfg_replayEnterCommit r _ hh]
+    · simp only [recfg_replayEnterCommit r _ hh, recfg_historyCap r _ hl]
     · rfl
 
 end Mach
@@ -564,12 +582,12 @@ theorem step_recfg (r : Recfg) (hl : r.limit = none) (m : Mach U) (o : Op)
       cases h : r.noHist
       · rfl
       · exact absurd (hh h) (by simp [Op.usesHistory])
-    rw [Mach.recfg_replayTransitions r m this]
+    rw [Mach.recfg_replayTransitions r m this hl]
   · have : r.noHist = false := by
       cases h : r.noHist
       · rfl
       · exact absurd (hh h) (by simp [Op.usesHistory])
-    rw [Mach.recfg_replayEnter r m this]
+    rw [Mach.recfg_replayEnter r m this hl]
 
 theorem run_recfg (r : Recfg) (hl : r.limit = none) : (ops : List Op) → (m : Mach U) →
     (r.noHist = true → ∀ o ∈ ops, o.usesHistory = false) →
